@@ -180,23 +180,20 @@ def run(tier, rng, C):
                     msg = unhx(o.split(' ')[1]) if obs_kind(o) == 'err' else ''
                     if obs_kind(o) != 'err':
                         bad = 'two files define %r but construction succeeded' % col[1]
-                    elif 'collides' not in msg:
-                        bad = 'collision not reported as such: %r' % msg[:200]
                     else:
-                        import re as _re
-                        mm = _re.search(r"Definition of (node|class) '(.*?)' in '(.*?)' collides with definition in '(.*?)'", msg)
-                        if not mm:
-                            bad = 'collision error does not name both files: %r' % msg[:300]
-                        else:
-                            kind, nm, p1, p2 = mm.groups()
-                            tree = ntree if kind == 'node' else ctree
-                            root = '/nodes/' if kind == 'node' else '/classes/'
-                            rels = [tuple(x.split(root, 1)[1].split('/')) if root in x else None for x in (p1, p2)]
-                            okp = rels[0] != rels[1] and all(
-                                r is not None and tree.get(r) == 'file' and
-                                spec_names({r: 'file'}, kind, compose if kind == 'node' else True) == {nm: r} for r in rels)
-                            if not okp:
-                                bad = 'collision error names %r / %r for %r, which are not two files with that name' % (p1, p2, nm)
+                        # the error names two files that yield one and the same name (whatever its wording)
+                        found = None
+                        for kind, tree, root, comp in (('node', ntree, '/nodes/', compose), ('class', ctree, '/classes/', True)):
+                            files = [q for q in sorted(tree) if tree[q] == 'file' and is_yaml(q[-1])]
+                            named = [q for q in files if (root + '/'.join(q)) in msg]
+                            for x in named:
+                                for y in named:
+                                    if x < y and list(spec_names({x: 'file'}, kind, comp)) == list(spec_names({y: 'file'}, kind, comp)):
+                                        nm = list(spec_names({x: 'file'}, kind, comp))[0]
+                                        if nm == '' or nm in msg:
+                                            found = (x, y)
+                        if not found:
+                            bad = 'the error does not name two files that yield the same name: %r' % msg[:300]
                 else:
                     if obs_kind(o) != 'ok':
                         bad = 'construction fails without a name collision: %s' % C.describe(o)[:300]
